@@ -102,6 +102,9 @@ func (t *InnerSplitTopo) SplitAt(key []byte) bool {
 	return t.Cl.SplitAt(cands[t.H.Intn("at"+tag, len(cands))])
 }
 
+// SplitExactly cuts at key itself (fates that name their own split point).
+func (t *InnerSplitTopo) SplitExactly(key []byte) bool { return t.Cl.SplitAt(key) }
+
 // MoveLeaderOf implements Topo.
 func (t *InnerSplitTopo) MoveLeaderOf(key []byte) bool { return t.Cl.MoveLeaderOf(key) }
 
